@@ -77,7 +77,7 @@ def run_loops(ctx, fx, rule, checks, alpha=None):
     out = []
     for f, kind in found:
         b = ctx.body(fx, f)
-        n = nfa.build(b, A)
+        n = nfa.build(b, A, fx, depth=(3 if ctx.tier == "thorough" else 2))
         viols, ps = nfa.check(n, loops.Lifecycle(kind == "stream", checks))
         ctx.count_nfa(n.stats(), ps)
         inst = "%s-loop@%s" % (kind, fx.cfg)
@@ -108,7 +108,7 @@ def run(ctx):
                 ctx.viol("R03.3", inst, "refresh body not found (not an async fn?)", fn=f["def"], site=f["loc"])
                 continue
             b = ctx.body(fx, co)
-            n = nfa.build(b, A)
+            n = nfa.build(b, A, fx, depth=2)
             viols, ps = nfa.check(n, RefreshSpec(strat_kind(strat)))
             ctx.count_nfa(n.stats(), ps)
             if viols:
